@@ -373,7 +373,12 @@ def _check(case):
                     return Result.violation("solve-outcome", f"{desc(i)}: {got} vs fresh constant model {want}", classes)
                 if got[0] == "ok":
                     if got[1] != want[1]:
-                        if "optimal" in (got[1], want[1]):
+                        same_point = (got[2] is not None and want[2] is not None and list(got[3]) == list(want[3])
+                                      and abs(got[2] - want[2]) <= 1e-9 * (1 + abs(want[2]))
+                                      and all(abs(got[3][k_] - want[3][k_]) <= 1e-5 for k_ in want[3]))
+                        if same_point:
+                            classes.append("solver-verdict-differs-at-the-same-point")  # e.g. an ABNORMAL line search at the optimum
+                        elif "optimal" in (got[1], want[1]):
                             return Result.violation("solve-status", f"{desc(i)}: status {got[1]} vs fresh constant model {want[1]} "
                                                                     f"(parameters {M.pvals(values)})", classes)
                     elif got[1] == "optimal":
